@@ -9,6 +9,8 @@ def run(r):
     r.require_theorems(1)
     r.run_witnesses()
     lexcommon.run_lex(r, "C11")
+    # non-greedy rules (`*?`, `+?`, also a rule that is nothing but a `+?` term): progress and EOF
+    lexcommon.run_lex(r, "C11", n_quick=10, n_thorough=100, family="lexng")
     r.assumptions += [
         "per generated specification the theorems quantify over all input strings; the space of specifications is sampled by the generator",
         "rules handed to the validator come from the harness' own AST (class expressions evaluated by the harness' own set arithmetic), tables from the file the real generator wrote",
